@@ -29,7 +29,7 @@ CASE_TIMEOUT = 150
 QUIESCENCE_SCOPE = "process"   # helpers are polling feeders only
 QUIESCENCE_AFTER = 60.0
 REQUIRED_OBS = ["iterator_measurements", "dataset_measurements", "infinite_streams_taken", "rust_measurements",
-                "kernel_open_measurements", "native_tfrecord_measurements"]
+                "kernel_open_measurements", "native_tfrecord_measurements", "measurements_with_process_record"]
 RULE = ("paths {shuffle_buffer, shuffle_buffer_async, round_robin, round_robin_async, LazyPool, dataset-level sync / "
         "concurrent unshuffled / concurrent shuffled / async / Rust / tf.data-generator} x buffer b x threads T x stream "
         "length {N, 10N, infinite} x take-count k x consumer speed. Distinct = (path, b, T, length class, k class, "
@@ -61,7 +61,7 @@ def gen_cases(tier: str, seed: int) -> list[dict]:
         cases.append({"kind": "dataset", "fmt": fmt, "eps": rng.choice([1, 2, 4]),
                       "T": rng.choice([1, 2, 3, 8, None]), "shuffle": rng.choice([0, 0, 3, 10]),
                       "k": rng.choice([1, 3, 10, 30]), "consumer": rng.choice(["fast", "slow"]),
-                      "seed": rng.randrange(1 << 30)})
+                      "seed": rng.randrange(1 << 30), "process_record": k % 5 in (1, 3)})
     return cases
 
 
@@ -284,7 +284,12 @@ def run_dataset(case: dict) -> dict:
                     if T is None and iface != "tfds":
                         continue      # only as_tfdataset documents file_parallelism=None
                     kwargs = {"file_parallelism": T} if "file_parallelism" in readers.ACCEPTS[iface] else {}
-                    label = f"{fmt} {iface} T={T} shuffle={shuffle} k={k} eps={eps} shards={n_shards} repeat={repeat} consumer={case['consumer']}"
+                    if case.get("process_record"):
+                        # a per-example transformation is one more stage of the pipeline; it must stay as lazy
+                        kwargs["process_record"] = readers.double_plus_one
+                        obs["measurements_with_process_record"] += 1
+                    label = (f"{fmt} {iface} T={T} shuffle={shuffle} k={k} eps={eps} shards={n_shards} repeat={repeat} "
+                             f"consumer={case['consumer']} process_record={bool(case.get('process_record'))}")
                     try:
                         if iface == "rust":
                             paths = [root / s.file_infos[0].file_path for s in dataset.shard_info_iterator("train")]
